@@ -181,9 +181,26 @@ func drawC06(t *rapid.T) C06Case {
 		c.Runs = 24
 	}
 	v := rapid.SampledFrom(j.Commodities).Draw(t, "valuation")
+	portfolio := !wide && rapid.IntRange(0, 5).Draw(t, "portfolioJournal") == 0
+	if portfolio {
+		// an investment journal with several priced holdings (the C20 generator), for the portfolio commands
+		pc := drawC20(t)
+		j = ref.Journal{Directives: pc.Directives}
+		for _, d := range pc.Directives {
+			if d.Kind == ref.KOpen {
+				j.Accounts = append(j.Accounts, d.Account)
+			}
+		}
+		tree = gen.SplitIntoTree(t, pc.Directives, 4)
+		c = C06Case{Files: tree.Files, Runs: c.Runs}
+		v = pc.V
+	}
 	c.Class = rapid.SampledFrom([]string{"balance", "balance", "balance", "print", "print", "check-write", "transcode", "weights", "returns", "register", "register"}).Draw(t, "class")
 	if wide {
 		c.Class = rapid.SampledFrom([]string{"balance", "balance", "print", "check-write", "register"}).Draw(t, "wideClass")
+	}
+	if portfolio {
+		c.Class = rapid.SampledFrom([]string{"weights", "weights", "returns"}).Draw(t, "portfolioClass")
 	}
 	valued := false
 	switch c.Class {
@@ -257,6 +274,10 @@ func drawC06(t *rapid.T) C06Case {
 			}
 			if rapid.Bool().Draw(t, "wsort") {
 				args = append(args, "-a")
+			}
+			if rapid.IntRange(0, 1).Draw(t, "wdigits") == 0 {
+				// enough digits to see the last bits of the floating point sums
+				args = append(args, "--digits", rapid.SampledFrom([]string{"2", "14", "16", "16"}).Draw(t, "wdigitsV"))
 			}
 			if rapid.IntRange(0, 2).Draw(t, "wmap") == 0 {
 				args = append(args, "-m", rapid.SampledFrom([]string{"1", "1,.", "1:1,.", "0,Other"}).Draw(t, "wmapv"))
